@@ -40,6 +40,16 @@ def window_shape(rep: Report, rid: str, prog: Program, qual: str, bucket: Any, w
     paths = engine(prog).paths(fi)
     first = ("sub", bucket, ("const", 0))
     lenb = ("pure", "len", (bucket,), ())
+    # the helper may itself delegate to a shared prune function of another shape (verified on its own paths by
+    # windows.helper_prune_info): then its single effect is that call, on this container, at this time
+    from .windows import WindowSpec, prunes
+
+    spec0 = WindowSpec("\0", lambda e: None, lambda e: None, window)
+    dele = [[x for x in prunes(p, spec0, {}, None) if x.how == "helper"] for p in paths]
+    if paths and all(len(d) == 1 and d[0].container == bucket and d[0].now == NOW for d in dele) and all(len([e for e in p.events if e.kind in ("call", "store") and not (e.kind == "call" and e.pure)]) == 1 for p in paths):
+        rep.instance(rid, f"{qual}|prune-shape", {"function": qual, "delegates_to": dele[0][0].event.label})
+        rep.ok(rid)
+        return True
     okshape, why, n_pop_paths = True, "", 0
     for p in paths:
         last = 0
